@@ -2,7 +2,8 @@
 import store_hist as H
 
 ID = "C03"
-THEOREMS = []
+THEOREMS = ["C03_getPayload", "C03_getPayload_prefix", "C03_getPayloadRef", "C03_reads_pure",
+            "C03_start_pos", "C03_position"]
 COQ_IMPORTS = "From FT Require Import Model.Base Model.Obs Model.Store Model.StoreCheck."
 CHECK_VO = ["Model/StoreCheck.v"]
 CHECKER = "c03_checker"
@@ -12,8 +13,17 @@ RULE = ("case = (tensor tree of depth 1-3 with explicit defaults / empty sub-fib
         "1-10 public operations addressed by coordinate path); observation = state snapshot (raw tree, per-rank "
         "fiber lists as paths, owner flags) before the history and after every step plus each step's outcome and "
         "return value. distinct = distinct canonical JSON; non-trivial = non-empty tree and >= 1 op")
-TRUSTED = []
-ASSUMPTIONS = []
+TRUSTED = ["Coq 8.16.1 kernel (coqc; coqchk in the thorough tier)",
+           "Print Assumptions of every C03 theorem: Closed under the global context",
+           "hand-written model coq/Model/Store.v (getPayload, getPayloadRef/_create_payload/_createDefault, getPosition(Ref), "
+           "_coord2pos with start_pos), tied to /repo by the per-step differential correspondence of this run",
+           "oracle c03_holds (replay of the history on an association list) evaluated on the implementation's observations; "
+           "that the model's own observation satisfies it is checked per case at run time (verdict bit 4), not proved",
+           "harness/store_hist.py, harness/check.py"]
+ASSUMPTIONS = ["tensors (owned trees) of depth 1-3; points are full points or proper prefixes; handles are written through immediately "
+               "(assignment <<= v and in-place += v), which is faithful because no operation of this family ever removes an element",
+               "start_pos: the cases carry a seed k, the shortcut used is k mod len; 'legal' = every coordinate before it is smaller "
+               "than the one looked for (getPayload additionally refuses, by its own assertion, a shortcut whose coordinate is larger)"]
 case_to_coq = H.case_to_coq
 run_impl = H.run_impl
 nontrivial = H.nontrivial
